@@ -8,7 +8,12 @@ use crate::error::{
 use crate::mpmc_v2::backoff;
 use crate::RecvErrorTimeout;
 
+#[cfg(not(excsn_fibre_verif))]
 use std::time::{Duration, Instant};
+#[cfg(excsn_fibre_verif)]
+use std::time::Duration;
+#[cfg(excsn_fibre_verif)]
+use fibre_verif_rt::time::Instant;
 
 use crate::internal::sync::{thread, AtomicU8, Ordering};
 
